@@ -1,7 +1,8 @@
 (* C01 — property theorems only.  Each is closed by [exact <lemma>] and followed by
    Print Assumptions; non-vacuity Examples at the end. *)
 From V Require Import Common.NumFacts C01.Model C01.Proofs C01.ProofsMulti C01.ProofsMix C01.ProofsOps
-  C01.ProofsTotal C01.ProofsSplit C01.ProofsCopyM C01.ProofsCopy C01.ProofsAlias C01.ProofsDeep.
+  C01.ProofsTotal C01.ProofsSplit C01.ProofsCopyM C01.ProofsCopy C01.ProofsAlias C01.ProofsDeep
+  C01.ProofsView C01.ProofsInv.
 
 (* ===== mixing: value =====
    Whatever the receiver (single- or multi-phase), the inlets (any phases, single/multi, the
@@ -274,8 +275,8 @@ Theorem C01_alias_views_follow : forall a vst vst' o k j m' resid a',
   write_target a vst vst' o k = Ok a' ->
   nth_error (hs a') k = Some (HCell (length (cells a))) /\
   nth_error (cells a') (length (cells a)) = Some (MS m') /\
-  forall q p lbl, q <> k -> nth_error (hs a) q = Some (HView j p lbl) -> in_indexer lbl (mphases m') = true ->
-              nth_error (hs a') q = Some (HView (length (cells a)) (if pmem lbl (mphases m') then lbl else swapcase lbl) lbl).
+  forall q p lbl, q <> k -> nth_error (hs a) q = Some (HView j p lbl) -> in_indexer lbl (bind_phases vst o m') = true ->
+              nth_error (hs a') q = Some (HView (length (cells a)) (if pmem lbl (bind_phases vst o m') then lbl else swapcase lbl) lbl).
 Proof. exact views_follow. Qed.
 Print Assumptions C01_alias_views_follow.
 (* the case that used to be excluded (and refuted): the only non-empty inlet of an energy-balanced mix is one of
@@ -430,6 +431,7 @@ Print Assumptions C01_copy_partial_any.
    handles showed them, every other flow data is untouched *)
 Theorem C01_alias_sep_value : forall a r o a' vst h,
   views (cells a) (hs a) = Ok vst -> wf_store vst -> nth_error (hs a) r = Some h -> r <> o ->
+  (match h with HView _ _ _ => False | _ => True end) ->
   astep a (OSep r o) = Ok a' ->
   exists x, nth_error (cells a') (hcell h) = Some x /\
     (forall c, tot x c == tot_at vst c r - tot_at vst c o) /\
@@ -439,6 +441,7 @@ Proof. exact alias_sep_value. Qed.
 Print Assumptions C01_alias_sep_value.
 Theorem C01_alias_scale_value : forall a i k a' vst h,
   views (cells a) (hs a) = Ok vst -> nth_error (hs a) i = Some h ->
+  (match h with HView _ _ _ => False | _ => True end) ->
   astep a (OScale i k) = Ok a' ->
   exists x, nth_error (cells a') (hcell h) = Some x /\
     (forall c, tot x c == k * tot_at vst c i) /\
@@ -451,6 +454,7 @@ Print Assumptions C01_alias_scale_value.
 Theorem C01_alias_copy_remove : forall a d s a' vst hd hsrc,
   views (cells a) (hs a) = Ok vst -> wf_store vst ->
   nth_error (hs a) d = Some hd -> nth_error (hs a) s = Some hsrc ->
+  (match hd with HView _ _ _ => False | _ => True end) ->
   (match hsrc with HView _ _ _ => False | _ => True end) ->
   d <> s -> hcell hd <> hcell hsrc ->
   astep a (OCopyFlow d s IdAll true false) = Ok a' ->
@@ -518,6 +522,7 @@ Print Assumptions C01_alias_handles_read_cell.
 Theorem C01_alias_copy_partial : forall a d s i remove exclude a' vst hd hsrc,
   views (cells a) (hs a) = Ok vst -> wf_store vst ->
   nth_error (hs a) d = Some hd -> nth_error (hs a) s = Some hsrc ->
+  (match hd with HView _ _ _ => False | _ => True end) ->
   (match hsrc with HView _ _ _ => False | _ => True end) ->
   d <> s -> hcell hd <> hcell hsrc -> i <> IdAll ->
   astep a (OCopyFlow d s i remove exclude) = Ok a' ->
@@ -535,6 +540,7 @@ Theorem C01_alias_copy_remove_from_substream : forall a d s a' vst hd j p lbl m 
   views (cells a) (hs a) = Ok vst -> wf_store vst -> wf_stream (MS m) ->
   nth_error (hs a) d = Some hd -> nth_error (hs a) s = Some (HView j p lbl) ->
   nth_error (cells a) j = Some (MS m) -> pindex_exact p (mphases m) = Some i ->
+  (match hd with HView _ _ _ => False | _ => True end) ->
   d <> s -> hcell hd <> j ->
   astep a (OCopyFlow d s IdAll true false) = Ok a' ->
   exists x1 x2, nth_error (cells a') (hcell hd) = Some x1 /\ nth_error (cells a') j = Some x2 /\
@@ -636,3 +642,104 @@ Example C01_nonvacuous_alias_mix_views_and_multi_copy :
   (exists a', astep exA (OMix 0 [2; 3]%nat true 2) = Ok a') /\
   (exists a', astep exA (OCopyFlowM 2 4 (PhOne Pg) (IdList [0; 2]%nat) true false) = Ok a').
 Proof. split; eexists; vm_compute; reflexivity. Qed.
+
+(* ===== a per-phase sub-stream multistream[p] as the RECEIVER (scale, separate_out, copy_flow write the row object it
+   wraps in place): the MultiStream keeps its package and phases, only row i changes, and its per-chemical totals
+   change by exactly the change of what the sub-stream showed; every other flow data is untouched ===== *)
+Theorem C01_alias_scale_substream : forall a k q a' vst j p lbl m i,
+  views (cells a) (hs a) = Ok vst -> nth_error (hs a) k = Some (HView j p lbl) ->
+  nth_error (cells a) j = Some (MS m) -> pindex_exact p (mphases m) = Some i -> (i < length (mrows m))%nat ->
+  astep a (OScale k q) = Ok a' ->
+  exists x, nth_error (cells a') j = Some x /\ spkg x = mpkg m /\ sphases x = mphases m /\
+    srows x = upd (mrows m) i (vscale q (nth i (mrows m) [])) /\
+    (forall c, tot x c == tot (MS m) c - tot_at vst c k + q * tot_at vst c k) /\
+    (forall j', j' <> j -> nth_error (cells a') j' = nth_error (cells a) j') /\ hs a' = hs a.
+Proof. exact alias_scale_substream. Qed.
+Print Assumptions C01_alias_scale_substream.
+(* separating a stream out of a sub-stream takes exactly that stream's flows out of the MultiStream (the other phase
+   rows are the same objects with the same content) *)
+Theorem C01_alias_sep_substream : forall a r o a' vst j p lbl m i,
+  views (cells a) (hs a) = Ok vst -> wf_store vst -> nth_error (hs a) r = Some (HView j p lbl) ->
+  nth_error (cells a) j = Some (MS m) -> pindex_exact p (mphases m) = Some i -> (i < length (mrows m))%nat ->
+  r <> o -> astep a (OSep r o) = Ok a' ->
+  exists x, nth_error (cells a') j = Some x /\ spkg x = mpkg m /\ sphases x = mphases m /\
+    (forall c, tot x c == tot (MS m) c - tot_at vst c o) /\
+    (forall k, k <> i -> nth k (srows x) [] = nth k (mrows m) []) /\
+    (forall j', j' <> j -> nth_error (cells a') j' = nth_error (cells a) j') /\ hs a' = hs a.
+Proof. exact alias_sep_substream. Qed.
+Print Assumptions C01_alias_sep_substream.
+(* copy with removal INTO a sub-stream from a stream on other flow data: the phase row takes the source's flows (what
+   it held before is overwritten), the source ends empty - nothing is duplicated or lost between the two flow data *)
+Theorem C01_alias_copy_remove_into_substream : forall a d s a' vst hsrc j p lbl m i,
+  views (cells a) (hs a) = Ok vst -> wf_store vst ->
+  nth_error (hs a) d = Some (HView j p lbl) -> nth_error (hs a) s = Some hsrc -> nonview hsrc ->
+  nth_error (cells a) j = Some (MS m) -> pindex_exact p (mphases m) = Some i -> (i < length (mrows m))%nat ->
+  d <> s -> j <> hcell hsrc ->
+  astep a (OCopyFlow d s IdAll true false) = Ok a' ->
+  exists x1 x2, nth_error (cells a') j = Some x1 /\ nth_error (cells a') (hcell hsrc) = Some x2 /\
+    spkg x1 = mpkg m /\ sphases x1 = mphases m /\
+    (forall c, tot x1 c == tot (MS m) c - tot_at vst c d + tot_at vst c s /\ tot x2 c == 0) /\
+    (forall j', j' <> j -> j' <> hcell hsrc -> nth_error (cells a') j' = nth_error (cells a) j').
+Proof. exact alias_copy_remove_into_substream. Qed.
+Print Assumptions C01_alias_copy_remove_into_substream.
+Example C01_nonvacuous_alias_substream_receiver :
+  nth_error (hs exA) 5 = Some (HView 2 Pl Pl) /\ pindex_exact Pl [Pg; Pl] = Some 1%nat /\
+  (exists a', astep exA (OScale 5 (1 # 2)) = Ok a') /\ (exists a', astep exA (OSep 5 3) = Ok a') /\
+  (exists a', astep exA (OCopyFlow 5 3 IdAll true false) = Ok a').
+Proof. split; [reflexivity|]. split; [reflexivity|]. repeat split; eexists; vm_compute; reflexivity. Qed.
+
+(* ===== the alias store over alias histories =====
+   Invariant: every stream object points at existing flow data.  Every operation that returns keeps it and never drops
+   flow data or stream objects; hence so does every history (the part that ran, whatever stopped it).  Every store whose
+   stream objects can all be read satisfies it, so it holds initially for every store the correspondence builds. *)
+Theorem C01_alias_step_invariant : forall a o a', astep a o = Ok a' -> alias_inv a ->
+  alias_inv a' /\ (length (cells a) <= length (cells a'))%nat /\ (length (hs a) <= length (hs a'))%nat.
+Proof. exact astep_inv. Qed.
+Print Assumptions C01_alias_step_invariant.
+Theorem C01_alias_history_invariant : forall n ops a r rest, arun_upto a ops n = (Ok r, rest) -> alias_inv a ->
+  alias_inv r /\ (length (cells a) <= length (cells r))%nat /\ (length (hs a) <= length (hs r))%nat.
+Proof. exact arun_inv. Qed.
+Print Assumptions C01_alias_history_invariant.
+Theorem C01_alias_views_give_invariant : forall a vst, views (cells a) (hs a) = Ok vst -> alias_inv a.
+Proof. exact views_inv. Qed.
+Print Assumptions C01_alias_views_give_invariant.
+(* linked MultiStreams (link_with) and the shared rows: each partner shows exactly the rows of the flow data under its
+   own phases tuple - also a stale one, after the other partner expanded the phases - so all partners and the flow
+   data agree on every per-chemical total at every state of every history *)
+Theorem C01_alias_linked_partner_reads_rows : forall cs j phs y, view_of cs (HLink j phs) = Ok y ->
+  exists m, nth_error cs j = Some (MS m) /\ y = MS (mkm (mpkg m) phs (mrows m)) /\
+    forall c, tot y c = tot (MS m) c.
+Proof. exact linked_partner_reads_rows. Qed.
+Print Assumptions C01_alias_linked_partner_reads_rows.
+Theorem C01_alias_linked_partners_agree : forall cs j phs1 phs2 y1 y2,
+  view_of cs (HLink j phs1) = Ok y1 -> view_of cs (HLink j phs2) = Ok y2 ->
+  srows y1 = srows y2 /\ spkg y1 = spkg y2 /\ forall c, tot y1 c = tot y2 c.
+Proof. exact linked_partners_agree. Qed.
+Print Assumptions C01_alias_linked_partners_agree.
+(* the partner that writes ends in step with the rows it wrote (the flow data takes its phases); the other partners and
+   every other flow data are left as they are *)
+Theorem C01_alias_linked_writer_in_step : forall a k j phs m' a',
+  nth_error (hs a) k = Some (HLink j phs) -> write_back a k (MS m') = Ok a' ->
+  exists m, nth_error (cells a) j = Some (MS m) /\
+    nth_error (hs a') k = Some (HLink j (mphases m')) /\
+    nth_error (cells a') j = Some (MS (mkm (mpkg m) (mphases m') (mrows m'))) /\
+    (forall q, q <> k -> nth_error (hs a') q = nth_error (hs a) q) /\
+    (forall j', j' <> j -> nth_error (cells a') j' = nth_error (cells a) j').
+Proof. exact linked_writer_in_step. Qed.
+Print Assumptions C01_alias_linked_writer_in_step.
+Definition exL : astore :=
+  mka [MS (mkm exP1 [Pg; Pl] [[1; 0; 0]; [0; 2; 4]]); SS (mkc exP1 Ps [0; 1; 1])]
+      [HLink 0 [Pg; Pl]; HCell 1; HLink 0 [Pg; Pl]].
+(* a linked pair: one partner takes a solid inlet and expands the shared rows; the other keeps (g, l) over three rows *)
+Example C01_nonvacuous_alias_invariant :
+  alias_inv exA /\ alias_inv exL /\
+  match arun_upto exL [OMix 0 [0; 1]%nat false 0] 1 with
+  | (Ok r, []) => match views (cells r) (hs r) with
+                  | Ok [MS m0; _; MS m2] => phases_eqb (mphases m0) [Pg; Pl; Ps] && phases_eqb (mphases m2) [Pg; Pl]
+                                            && list_eqb vapproxb (mrows m0) (mrows m2)
+                  | _ => false end
+  | _ => false end = true.
+Proof.
+  split; [apply (views_inv exA exA_views exA_views_ok)|].
+  split; [intros h [<-|[<-|[<-|[]]]]; simpl; lia|]. vm_compute. reflexivity.
+Qed.
